@@ -367,3 +367,5 @@ func checkLag(c LagCase) (r pbt.Result) {
 }
 
 func TestLag(t *testing.T) { pbt.Run(t, genLag, checkLag) }
+
+func FuzzStorageRouting(f *testing.F) { pbt.Fuzz(f, genSR, checkSR) }
